@@ -5,6 +5,8 @@ import (
 	"sort"
 	"strings"
 
+	"github.com/freeconf/yang/source"
+
 	"verif/harness/core"
 
 	"github.com/freeconf/yang/meta"
@@ -338,8 +340,19 @@ func c11malformed(c *core.Ctx) {
 	}
 }
 
-const c11kindsModule = `module g { namespace "urn:g"; prefix g; revision 2020-01-01;
+// the modules the one below imports: features are declared in three modules of one load
+const c11kindsGi = `module gi { namespace "urn:gi"; prefix gi; import gj { prefix gj; } revision 2020-01-01;
+ feature k;
+ grouping igrp { leaf il { if-feature k; type gj:t; } leaf im { type string; } leaf in { if-feature "k and f"; type string; } }
+}`
+const c11kindsGj = `module gj { namespace "urn:gj"; prefix gj; revision 2020-01-01;
+ feature z;
+ typedef t { type string; }
+}`
+
+const c11kindsModule = `module g { namespace "urn:g"; prefix g; import gi { prefix gi; } revision 2020-01-01;
  feature f; feature h;
+ container ig { uses gi:igrp; }
  grouping grp { leaf gl { type string; } leaf gl2 { type string; description "orig2"; } leaf gl3 { type string; description "orig3"; } }
  container c { if-feature f; leaf x { type string; } }
  list li { if-feature f; key k; leaf k { type string; } }
@@ -359,8 +372,9 @@ const c11kindsModule = `module g { namespace "urn:g"; prefix g; revision 2020-01
 
 // every guardable statement kind, feature on and off
 func c11kinds(c *core.Ctx) {
-	for _, fOn := range []bool{true, false} {
-		for _, hOn := range []bool{true, false} {
+	for cfg := 0; cfg < 8; cfg++ {
+		{
+			fOn, hOn, kOn := cfg&1 == 0, cfg&2 == 0, cfg&4 == 0
 			var on []string
 			if fOn {
 				on = append(on, "f")
@@ -368,7 +382,11 @@ func c11kinds(c *core.Ctx) {
 			if hOn {
 				on = append(on, "h")
 			}
-			m, err := parser.LoadModuleFromStringWithOptions(nil, c11kindsModule, parser.Options{Features: meta.FeaturesOn(on)})
+			if kOn {
+				on = append(on, "k")
+			}
+			opener := source.Any(source.Named("g", strings.NewReader(c11kindsModule)), source.Named("gi", strings.NewReader(c11kindsGi)), source.Named("gj", strings.NewReader(c11kindsGj)))
+			m, err := parser.LoadModuleWithOptions(opener, "g", parser.Options{Features: meta.FeaturesOn(on)})
 			if err != nil {
 				c.Violation(core.Replay{Kind: "property-failure", Class: "kinds-load", Summary: fmt.Sprintf("module with if-feature on every statement kind fails to load with features %v: %v", on, err), Input: c11kindsModule})
 				return
@@ -381,6 +399,8 @@ func c11kinds(c *core.Ctx) {
 				"/ch3/a3/a3l": true, "/ch3/b3": fOn, "/ch3/z3/gl": true, "/ch3/z3/gl2": true, "/ch3/z3/z3c/zz": hOn, "/ch3/z3/z3c/zk": true,
 				// if-feature on an augment inside a uses
 				"/ub/gc/in": true, "/ub/gc/ubl": fOn, "/ub/gc/ubn": !fOn, "/ub/gc/ubk": true,
+				// a grouping of an imported module guarded by that module's feature
+				"/ig/il": kOn, "/ig/im": true, "/ig/in": kOn && fOn,
 			}
 			paths := make([]string, 0, len(expect))
 			for p := range expect {
